@@ -399,6 +399,26 @@ void caller_entry(void) {
 '''
 
 
+X87_ACROSS_CALLS = r'''
+#include <stdio.h>
+long double vrt_x87_heavy(void);          /* rt/vrt_asm.S: uses all eight x87 registers, returns 8 */
+struct SL { long double v; int k; };
+static struct SL tab[2] = { { 1.5L, 1 }, { 2.5L, 2 } };
+static struct SL mk(void) { struct SL s = { vrt_x87_heavy(), 7 }; return s; }
+static struct SL *pmk(void) { static struct SL s; s.v = vrt_x87_heavy(); return &s; }
+static int idx(void) { return vrt_x87_heavy() > 7; }
+static long double arr[3] = { 1, 2, 3 };
+#define P(label, e) do { long double r_ = (e); printf(label " %La\n", r_); } while (0)
+int main(void) {
+  volatile long double x = 1.25L, y = 2.5L;
+  P("plus-call", x + vrt_x87_heavy()); P("call-plus", vrt_x87_heavy() + x); P("plus-member-of-call", x + mk().v); P("times-element-by-call", x * tab[idx()].v); P("minus-arrow-of-call", x - pmk()->v);
+  P("plus-array-by-call", x + arr[idx() + 1]); P("plus-deref-of-call", y / *(&pmk()->v)); P("nested", x + (y * mk().v - (x + tab[idx()].v))); P("compare", (long double)(x < mk().v)); P("cond", x + (idx() ? mk().v : y));
+  P("comma", x + (idx(), y)); P("cast", x + (long double)idx()); P("assign-op", (y += mk().v, y)); P("two-calls", mk().v * pmk()->v + x);
+  return 0;
+}
+'''
+
+
 def va_list_interop(ctx, cc, work):
     """va_list is part of the ABI: a list made by va_start on one side is read by va_arg on the other side (vprintf-style forwarding), with
     named parameters of every class in front of the unnamed arguments and with structs of every register class among them.  The reference
@@ -444,6 +464,8 @@ def run(ctx):
     work = ctx.tmpdir('c06')
     rng = ctx.rng
     va_list_interop(ctx, cc, work)
+    # a long double operand must not sit in an x87 register while any call is made: the callee may use all eight
+    core.header_probe(ctx, cc, work, 'x87_across_calls', X87_ACROSS_CALLS, 'C06|x87-across-call|%s')
     ctx.rule = ('signature = parameter list over the psABI classes + return class (+ variadic tail); every scalar leaf carries a unique value; each signature runs in '
                 'gcc->gcc, clang->clang, chibicc->chibicc, chibicc->gcc, gcc->chibicc; grid = 23 argument classes x 8 GP x 10 SSE register-exhaustion states; '
                 'distinct = distinct (direction-independent) signature tags / parameter-class tuples')
